@@ -1,4 +1,6 @@
 import Firebolt.Model.Producer
+import Firebolt.Generated.Source
+import Firebolt.Expected.Source
 /-!
 # C15 — Kafka producer sink and error reports: one faithful record per event
 Theorems about `Model/Producer.lean` (decision logic stated outright), for all payloads, topics and errors.
@@ -54,5 +56,16 @@ theorem report_payload_independent (cfg : String) (e : Err) (r1 r2 : Report)
   · simp [hc] at h1 h2; subst h1; subst h2; exact ⟨rfl, rfl, rfl⟩
 
 theorem non_report_rejected (cfg : String) (ser : Bool) (e : Err) : report cfg false ser e = .error := rfl
+
+
+/-! ### the functions this model was transcribed from are unchanged (regenerated from /repo on every run) -/
+theorem source_kpProcess : GeneratedSrc.kpProcess = ExpectedSrc.kpProcess := by rfl
+theorem source_kpProduce : GeneratedSrc.kpProduce = ExpectedSrc.kpProduce := by rfl
+theorem source_epProcess : GeneratedSrc.epProcess = ExpectedSrc.epProcess := by rfl
+theorem source_eventErrorMarshalJSON : GeneratedSrc.eventErrorMarshalJSON = ExpectedSrc.eventErrorMarshalJSON := by rfl
+theorem source_newEventError : GeneratedSrc.newEventError = ExpectedSrc.newEventError := by rfl
+theorem source_newFBError : GeneratedSrc.newFBError = ExpectedSrc.newFBError := by rfl
+theorem source_tyEventError : GeneratedSrc.tyEventError = ExpectedSrc.tyEventError := by rfl
+theorem source_tyFBError : GeneratedSrc.tyFBError = ExpectedSrc.tyFBError := by rfl
 
 end Firebolt.C15
